@@ -914,11 +914,12 @@ class ConstructedPayloadDecoderBase(AbstractConstructedPayloadDecoder):
             idx = 0
 
             while True:  # loop over components
-                if len(namedTypes) <= idx:
-                    asn1Spec = None
-
-                elif isSetType:
+                if isSetType and namedTypes:
+                    # SET components may come in any order
                     asn1Spec = namedTypes.tagMapUnique
+
+                elif len(namedTypes) <= idx:
+                    asn1Spec = None
 
                 else:
                     try:
